@@ -85,6 +85,10 @@ def gen_one(rng, tier):
             if case['procs'] and rng.random() < 0.12:
                 ops.append(['process', rng.choice([0, 1, 0.5]),
                             rng.randrange(case['procs'])])
+            elif rng.random() < 0.08:
+                # fault: the k-th on_remove of this flush raises
+                ops.append(['process', rng.choice([0, 1]), None,
+                            rng.randrange(3)])
             else:
                 ops.append(['process', rng.choice([0, 1, 0.5])])
             if rng.random() < 0.3:
@@ -110,6 +114,9 @@ class C05Driver(wl.Driver):
         self.window = {}            # id -> ops since its delete_entity
         self.touched_in_window = False
         self.fault_obj = None
+        self.remove_fault = None    # countdown to a raising on_remove
+        self.remove_fault_obj = None
+        self.broken = set()         # ids left half-flushed by such a fault
 
         def make_proc(i):
             def process(self_, dt=1):
@@ -127,7 +134,24 @@ class C05Driver(wl.Driver):
             self.procs.append(p)
             self.world.add_processor(p)
 
+    def in_callback(self, comp, kind, args):
+        if kind == 'remove' and self.remove_fault is not None:
+            if self.remove_fault == 0:
+                self.remove_fault = None
+                self.remove_fault_obj = HarnessError('fault in on_remove')
+                self.broken.add(args[0])
+                raise self.remove_fault_obj
+            self.remove_fault -= 1
+
     def execute(self, at, op):
+        # an entity whose flush was interrupted by a raising on_remove is in
+        # an unspecified state: never touched (nor judged) again
+        ref = op[1] if op[0] in ('add', 'readd', 'remove', 'delete') else (
+            op[2] if op[0] == 'create' else None)
+        if isinstance(ref, list) and self.broken:
+            e, ok = self.resolve(ref)
+            if ok and e in self.broken:
+                return None
         if op[0] == 'delghost':
             e = ('never', op[1])     # no other operation uses these ids
             self.mention(e)
@@ -146,11 +170,28 @@ class C05Driver(wl.Driver):
         op = rec['op']
         self.fault_at = op[2] if len(op) > 2 else None
         self.fault_obj = None
+        self.remove_fault = op[3] if len(op) > 3 else None
+        self.remove_fault_obj = None
         rec['injected'] = self.fault_at is not None
         rec['ghost'] = len(self.ghost_pending)
 
     def model_process(self, rec):
         m = self.model
+        self.remove_fault = None
+        if self.remove_fault_obj is not None:
+            # the flush was interrupted: which of the other pending entities
+            # were already flushed is not stated; the interrupted one is
+            # forgotten by the model
+            rec['remove_fault_fired'] = True
+            for e in list(m.pending | self.broken):
+                try:
+                    left = self.world.get_components(e)
+                except Exception:
+                    left = ()
+                if len(left) == 0 or e in self.broken:
+                    m.detach_all(e)
+                    m.pending.discard(e)
+            return
         if (rec['ghost'] and isinstance(rec['exc'], KeyError)
                 and rec['exc'].args and rec['exc'].args[0] in self.ghost_pending):
             # pinned by the suite: the frame may fail; which of the other
@@ -191,6 +232,17 @@ class C05Driver(wl.Driver):
         if name == 'process':
             res.stats['process_calls_checked'] += 1
             exc = rec['exc']
+            if rec.get('remove_fault_fired'):
+                if exc is not self.remove_fault_obj:
+                    res.div(at, 'fault-not-propagated', 'an on_remove '
+                            'callback raised during the flush but process() '
+                            'did not propagate that exception',
+                            expected=repr(self.remove_fault_obj),
+                            observed=repr(exc))
+                    return
+                self.failed_last_frame = 'on_remove-fault'
+                res.stats['injected_remove_faults'] += 1
+                return
             if rec.get('ghost_failed'):
                 self.failed_last_frame = 'ghost'
             elif rec['injected'] and self.fault_obj is not None:
@@ -261,7 +313,7 @@ class C05Driver(wl.Driver):
             return
 
         # step 1 of delete_entity: gone for entity_exists, still queryable
-        ids = list(self.mentioned)
+        ids = [x for x in self.mentioned if x not in self.broken]
         try:
             ents = list(w.entities)
             for x in ids:
